@@ -128,7 +128,8 @@ func runIterTrace(args []string) {
 			}
 			picked++
 			var b []byte
-			for r := 0; r < 2+(hi%5); r++ { // pumped: the short haystack repeated
+			target := []int{12, 40, 72}[hi%3] // pumped: the short haystack repeated past the 16/32/64-byte vector block sizes
+			for len(b) < target {
 				b = append(b, base...)
 			}
 			s := string(b)
